@@ -3,7 +3,8 @@ import TrustVerif.Drv.Common
 
 /-
 Driver for C07.  Tokens: address `<A><S>:<byte>:<bit>:<path|->:<wild>` (`IW:4:0:4:0`), value
-`<kind>:<payload>` (`int:-5`, `other:1`), type `bool|sint|…|other|none`.
+`<kind>:<payload>` (`int:-5`, `time:<ns>`, `date:<ticks>`, `enum:<numeric value>`, `other:2`), type
+`bool|sint|…|time|date|tod|dt|ltime|ldate|ltod|ldt|other|none`.
 
   case <n>
   kind raw|bind|pa|rt
@@ -54,10 +55,23 @@ def sizeTok : Size → String | .bit => "X" | .byte => "B" | .word => "W" | .dwo
 def addrTok (a : Addr) : String :=
   s!"{areaTok a.area}{sizeTok a.size}:{a.byte}:{a.bit}:{if a.path.isEmpty then "-" else joinWith "." (a.path.map toString)}:{if a.wildcard then 1 else 0}"
 
+def parseTKind? : String → Option TKind
+  | "time" => some .time | "date" => some .date | "tod" => some .tod | "dt" => some .dt
+  | "ltime" => some .ltime | "ldate" => some .ldate | "ltod" => some .ltod | "ldt" => some .ldt
+  | _ => none
+
+def tkindTok : TKind → String
+  | .time => "time" | .date => "date" | .tod => "tod" | .dt => "dt"
+  | .ltime => "ltime" | .ldate => "ldate" | .ltod => "ltod" | .ldt => "ldt"
+
 def parseValue? (s : String) : Option Value :=
   match s.splitOn ":" with
   | [k, p] =>
+    match parseTKind? k with
+    | some tk => p.toInt?.map (.tick tk)
+    | none =>
     match k with
+    | "enum" => p.toInt?.map .enum
     | "bool" => (parseBool? p).map .bool
     | "sint" => p.toInt?.map .sint
     | "int" => p.toInt?.map .int
@@ -86,6 +100,8 @@ def valTok : Value → String
   | .real v => s!"real:{v}" | .lreal v => s!"lreal:{v}"
   | .byte v => s!"byte:{v}" | .word v => s!"word:{v}" | .dword v => s!"dword:{v}" | .lword v => s!"lword:{v}"
   | .char v => s!"char:{v}" | .wchar v => s!"wchar:{v}"
+  | .tick k n => s!"{tkindTok k}:{n}"
+  | .enum n => s!"enum:{n}"
   | .other t => s!"other:{t}"
 
 def parseTy? : String → Option (Option Ty)
@@ -96,8 +112,7 @@ def parseTy? : String → Option (Option Ty)
   | "dint" => some (some .dint) | "udint" => some (some .udint) | "dword" => some (some .dword)
   | "real" => some (some .real) | "lint" => some (some .lint) | "ulint" => some (some .ulint)
   | "lword" => some (some .lword) | "lreal" => some (some .lreal) | "other" => some (some .other)
-  | "time" => some (some .time) | "ltime" => some (some .ltime)
-  | _ => none
+  | t => (parseTKind? t).map fun k => some (.tick k)
 
 def tyTok : Option Ty → String
   | none => "none"
@@ -105,7 +120,7 @@ def tyTok : Option Ty → String
   | some .char => "char" | some .int => "int" | some .uint => "uint" | some .word => "word"
   | some .wchar => "wchar" | some .dint => "dint" | some .udint => "udint" | some .dword => "dword"
   | some .real => "real" | some .lint => "lint" | some .ulint => "ulint" | some .lword => "lword"
-  | some .lreal => "lreal" | some .other => "other" | some .time => "time" | some .ltime => "ltime"
+  | some .lreal => "lreal" | some .other => "other" | some (.tick k) => tkindTok k
 
 def errTok : Err → String
   | .typeMismatch => "typeMismatch" | .overflow => "overflow" | .invalidIoAddress => "invalidIoAddress"
